@@ -15,6 +15,13 @@ def parsePair (s : String) : Option (Int × Int) :=
   | [a, b] => do pure ((← a.toInt?), (← b.toInt?))
   | _ => none
 
+/-- `tag:hex,tag:hex,…` or `-` -/
+def parseTags (s : String) : Option (List (Nat × Bytes)) :=
+  if s == "-" then some [] else
+  (s.splitOn ",").mapM fun t => match t.splitOn ":" with
+    | [a, b] => do pure ((← a.toNat?), (← fromHex b))
+    | _ => none
+
 def cidStr : Option Bytes → String
   | none => "null"
   | some b => toHex b
@@ -50,6 +57,13 @@ def stepLine (t : FlexTab) (ws : List String) : FlexTab × String :=
       let (ps, left) := readFrames b
       (t, s!"frames n={ps.length} payloads={joinWith "|" (ps.map toHex)} end={if left.isEmpty then "eof" else "err"}")
     | none => (t, "bad-op")
+  | ["enc", k, v, c, cid, tags] =>
+    -- the encoder of the round-trip theorem (`encodeHeader`), compared with Go's encoding/binary on the other side
+    let cid? : Option (Option Bytes) := if cid == "null" then some none else (fromHex cid).map some
+    match k.toInt?, v.toInt?, c.toInt?, cid?, parseTags tags with
+    | some k, some v, some c, some cid, some tags =>
+      (t, "enc " ++ toHex (encodeHeader { key := k, ver := v, corr := c, clientId := cid } (flexOf t k v) tags))
+    | _, _, _, _, _ => (t, "bad-op")
   | ["rt", k, v, c, cid, hx] => match k.toInt?, v.toInt?, c.toInt?, fromHex hx with
     | some k, some v, some c, some b =>
       (t, match parseHeader (flexOf t) b with
